@@ -292,8 +292,11 @@ impl CheckpointManager {
             .context("Failed to read checkpoint")?;
 
         let (state, _len): (CheckpointState, usize) =
-            decode_from_slice(&encoded, bincode::config::standard())
-                .context("Failed to deserialize checkpoint")?;
+            decode_from_slice(
+                &encoded,
+                bincode::config::standard().with_limit::<MAX_CHECKPOINT_DECODE_BYTES>(),
+            )
+            .context("Failed to deserialize checkpoint")?;
 
         // Verify checksum
         let metadata_str = format!(
@@ -385,6 +388,11 @@ impl CheckpointManager {
 }
 
 /// Compute SHA-256 checksum of data.
+/// Upper bound on what decoding a checkpoint file may allocate. A corrupted length prefix
+/// larger than this is rejected with an error instead of being allocated up front.
+#[cfg(feature = "checkpointing")]
+const MAX_CHECKPOINT_DECODE_BYTES: usize = 16 * 1024 * 1024;
+
 #[cfg(feature = "checkpointing")]
 #[must_use]
 pub fn compute_checksum(data: &[u8]) -> String {
